@@ -113,6 +113,68 @@ def make_tx(rng):
     return raw
 
 
+def cs(n):
+    """Bitcoin compact size, canonical"""
+    if n < 253:
+        return bytes([n])
+    if n <= 0xffff:
+        return b'\xfd' + struct.pack('<H', n)
+    if n <= 0xffffffff:
+        return b'\xfe' + struct.pack('<I', n)
+    return b'\xff' + struct.pack('<Q', n)
+
+
+def ser_tx(fields, flag=None, wits=None):
+    """fields = (version, [(prev32, index, script, sequence)], [(amount, script)], locktime); flag/wits given ->
+    the witness encoding (marker 00, flag, ..., per input: items), otherwise the legacy encoding"""
+    version, ins, outs, locktime = fields
+    body = cs(len(ins)) + b''.join(p + struct.pack('<I', i) + cs(len(sc)) + sc + struct.pack('<I', sq) for p, i, sc, sq in ins)
+    body += cs(len(outs)) + b''.join(struct.pack('<Q', a) + cs(len(sc)) + sc for a, sc in outs)
+    if flag is None:
+        return struct.pack('<I', version) + body + struct.pack('<I', locktime)
+    w = b''.join(cs(len(items)) + b''.join(cs(len(x)) + x for x in items) for items in wits)
+    return struct.pack('<I', version) + bytes([0, flag]) + body + w + struct.pack('<I', locktime)
+
+
+def ref_txid_preimage(raw):
+    """own reader: the bytes whose double SHA-256 is the transaction id (witness encoding -> legacy encoding).
+    Returns None when this reader cannot make sense of the bytes."""
+    try:
+        if len(raw) < 6 or raw[4] != 0 or raw[5] == 0:
+            return raw
+        pos = [6]
+
+        def take(k):
+            if pos[0] + k > len(raw):
+                raise ValueError('short')
+            out = raw[pos[0]:pos[0] + k]
+            pos[0] += k
+            return out
+
+        def rcs():
+            b = take(1)[0]
+            if b < 253:
+                return b
+            return int.from_bytes(take({253: 2, 254: 4, 255: 8}[b]), 'little')
+        nin = rcs()
+        ins = []
+        for _ in range(nin):
+            prev, idx = take(32), struct.unpack('<I', take(4))[0]
+            sc = take(rcs())
+            ins.append((prev, idx, sc, struct.unpack('<I', take(4))[0]))
+        outs = []
+        for _ in range(rcs()):
+            amount = struct.unpack('<Q', take(8))[0]
+            outs.append((amount, take(rcs())))
+        for _ in range(nin):
+            for _ in range(rcs()):
+                take(rcs())
+        locktime = struct.unpack('<I', take(4))[0]
+        return ser_tx((struct.unpack('<I', raw[:4])[0], ins, outs, locktime))
+    except Exception:
+        return None
+
+
 def alter_tx_bytes(rng, raw):
     """one byte of the output amount / output script hash / locktime changed: still parses, different txid"""
     j = rng.choice(list(range(154, 162)) + list(range(166, 186)) + list(range(188, 192)))
@@ -240,6 +302,7 @@ def run_impl(world, case):
     raw = bytes.fromhex(case['raw'])
     try:
         tx = Transaction(raw)
+        tx.hash   # a witness-flagged mutant may parse with missing fields and fail when its id is computed
     except Exception as e:  # the mutated transaction does not even parse: nothing to verify
         return {'unparseable': type(e).__name__}, raws
     prior = case.get('prior') or {}
@@ -265,7 +328,7 @@ def run_impl(world, case):
 def run_model(model, case, raws):
     prior = case.get('prior') or {'height': -2, 'position': -1, 'verified': False}
     arg = None if is_falsy(case['arg']) else model_resp(case['arg'])
-    return model.call('maybe_verify', headers=[r.hex() for r in raws], st=prior, raw=case['raw'],
+    return model.call('maybe_verify_raw', headers=[r.hex() for r in raws], st=prior, raw=case['raw'],
                       height=case['height'], arg=arg, net=model_resp(case['net'] or {}))
 
 
@@ -279,7 +342,10 @@ def monitor(case, obs, extra):
     prior = case.get('prior') or {'height': -2, 'position': -1, 'verified': False}
     eff = case['net'] if is_falsy(case['arg']) else case['arg']
     eff = eff or {}
-    leaf = H(raw)          # always from the bytes of the transaction object that came back, never from an id
+    # always from the bytes of the transaction object that came back, never from an id; for a witness-serialised
+    # transaction the id preimage is its legacy encoding (own reader above)
+    pre = ref_txid_preimage(raw)
+    leaf = H(pre if pre is not None else raw)
     if extra['len_headers'] != len(roots):
         return f'header store reports {extra["len_headers"]} headers, {len(roots)} were connected'
     if obs['height'] != h:
@@ -292,7 +358,8 @@ def monitor(case, obs, extra):
         decoded = [strict_unhex(bytes.fromhex(e['b']) if 'b' in e else e['s']) for e in eff['merkle']]
         if all(d is not None for d in decoded):
             decoded = [d[::-1] for d in decoded]
-            ref_ok = ref_check(decoded, eff['pos'], leaf, roots[h])
+            # a position the branch cannot address is not a proof (0 <= pos < 2^len(branch))
+            ref_ok = 0 <= eff['pos'] < (1 << len(decoded)) and ref_check(decoded, eff['pos'], leaf, roots[h])
     newly = obs['verified'] and not prior['verified']
     evaluated = obs['outcome'] == 'tx' and 0 < h < len(roots)
     if obs['verified'] and (newly or evaluated):
@@ -303,12 +370,17 @@ def monitor(case, obs, extra):
                     f'Merkle root of that header' + (' (the raw bytes returned by the server are not the requested '
                                                      'transaction; only its id and proof are genuine)'
                                                      if case.get('requested_txid') else ''))
-    if extra['hash'] != leaf or extra['txid'] != wire(leaf):
-        return 'tx.hash / tx.id of the returned transaction is not the double SHA-256 of its raw bytes'
+    if pre is not None and (extra['hash'] != leaf or extra['txid'] != wire(leaf)):
+        return ('tx.hash / tx.id of the returned transaction is not the double SHA-256 of its txid preimage '
+                '(the raw bytes, or their legacy re-encoding for a witness-serialised transaction)')
     if not has_header and obs['verified'] != prior['verified']:
         return f'verified flag changed at unknown height {h}'
-    if evaluated and obs['position'] != eff.get('pos'):
-        return f'position recorded as {obs["position"]}, supplied {eff.get("pos")}'
+    if evaluated and isinstance(eff.get('pos'), int) and 'merkle' in eff:
+        fits = 0 <= eff['pos'] < (1 << len(eff['merkle']))
+        if fits and obs['position'] != eff['pos']:
+            return f'position recorded as {obs["position"]}, supplied {eff["pos"]}'
+        if not fits and obs['position'] == eff['pos'] and eff['pos'] != prior['position']:
+            return (f'position {eff["pos"]} recorded although a branch of {len(eff["merkle"])} siblings cannot address it')
     if obs['fetched']:
         if extra['net_calls'] != [[wire(leaf), h]]:
             return f'network asked {extra["net_calls"]}, expected one get_merkle({wire(leaf)}, {h})'
@@ -347,6 +419,9 @@ def do_case(run, world, model, case):
     res, raws = run_impl(world, case)
     if isinstance(res, dict):
         run.count('unparseable-mutant')
+        # the model's reader must refuse these bytes as well (Wire/Tx.v, shared with C05)
+        run.compare('C08.txid_preimage of bytes the implementation cannot parse', {'kind': case['kind'], 'raw': case['raw']},
+                    None, model.call('txid_preimage', raw=case['raw']))
         return
     obs, extra = res
     evaluated = obs['outcome'] == 'tx' and 0 < case['height'] < len(case['roots'])
@@ -432,7 +507,7 @@ def block_cases(rng, n, seed, indices, thorough):
             yield mk('mut:pos-bit-dup-sibling' if dup else 'mut:pos-bit', 'accept-dup' if dup else 'reject',
                      {'bit': k}, arg={'merkle': text_elems(branch), 'pos': idx ^ (1 << k)})
         hb = L + rng.randrange(0, 4)
-        yield mk('mut:pos-high-bit', 'accept-highbit', {'bit': hb},
+        yield mk('mut:pos-high-bit', 'reject', {'bit': hb},
                  arg={'merkle': text_elems(branch), 'pos': idx | (1 << hb)})
         if n > 1:
             other = rng.choice([i for i in range(1 << L) if i != idx])
@@ -878,7 +953,9 @@ def restart_cases(rng, thorough):
     for i in range(L):
         chain.append(mine_header(rng, chain, glevels[-1][0] if i == g else rng.randbytes(32)))
     base = {'chain': [x.hex() for x in chain], 'alter': j, 'forged_root': forged_root.hex(),
-            'stray': rng.choice([rng.randrange(1, 112), 1, 111, 50]), 'net': {}}
+            # 0 = an aligned file (since fix 60c307b a checkpoint-less store is link-checked from genesis at open);
+            # otherwise a half-written tail, which runs the full repair
+            'stray': rng.choice([0, 0, rng.randrange(1, 112), 1, 111]), 'net': {}}
     idx = rng.randrange(n)
     yield dict(base, kind='restart:forged-root', n=n, block_seed=seed, idx=idx, raw=raws[idx].hex(), height=j,
                arg={'block_height': j, 'merkle': text_elems(ref_branch(levels, idx)), 'pos': idx})
@@ -1042,12 +1119,15 @@ def cache_scenario(seed):
     # requests in that session, shutdown, restart, and both proofs again
     if rng.random() < 0.8:
         steps.append(('restart',))
-        k = rng.choice([1, 1, 1, 2, 3])
+        k = rng.choice([1, 1, 2, 2, 3])
         k = min(k, len(chain) - 2)
-        old_tip = watch(chain, len(chain) - rng.randrange(1, k + 1), keep=False)
+        # j replacement headers for the last k: the same length, or a fork that is momentarily SHORTER (the stored
+        # headers above its tip belong to the abandoned fork and must go), or longer
+        j = rng.choice([k, k, max(1, k - 1), max(1, k - 1), k + 1])
+        old_tip = watch(chain, len(chain) - (1 if j < k else rng.randrange(1, k + 1)), keep=False)
         steps.append(('request', [old_tip] + rng.sample(watched, 1)))
-        chain = link_headers(chain[:len(chain) - k], [new_root() for _ in range(k)], 5)
-        new_tip = watch(chain, old_tip[1], keep=False)
+        chain = link_headers(chain[:len(chain) - k], [new_root() for _ in range(j)], 5)
+        new_tip = watch(chain, min(old_tip[1], len(chain) - 1), keep=False)
         steps.append(('replace', list(chain), k))
         if rng.random() < 0.7:
             steps.append(('request', [old_tip, new_tip] + rng.sample(watched, 1)))
@@ -1072,13 +1152,16 @@ def cache_case(run, world, model, case):
 
     def start_wallet():
         """a new process: the header FILE is opened again, a new Ledger (empty tx cache) and database"""
-        hd_ = Hd(os.path.join(tmp, 'headers'))
+        # since fix 60c307b a checkpoint-less store is link-checked from genesis when it is opened: the store
+        # has to know its genesis hash like a real network's does
+        hd_ = box['cls'](os.path.join(tmp, 'headers'))
         loop.run_until_complete(hd_.open())      # before the Ledger exists: Ledger.__init__ installs mainnet checkpoints
         db_ = Database(':memory:')
         box['ledger'] = Ledger({'db': db_, 'headers': hd_, 'network': net})
         hd_.checkpoints = {}
         loop.run_until_complete(db_.open())
         box['db'] = db_
+    box['cls'] = type('HdG', (Hd,), {'genesis_hash': binascii.hexlify(H(steps[0][1][0])[::-1])})
     start_wallet()
     ledger = box['ledger']
     store_diverged = None
@@ -1110,12 +1193,11 @@ def cache_case(run, world, model, case):
                     height=fork, headers=binascii.hexlify(b''.join(new[fork:])).decode(), subscription_update=True))
                 mops.append({'op': 'replace', 'fork': fork, 'headers': [x.hex() for x in new[fork:]]})
                 mexpect.append(None)
-                run.count('cache:equal-length-replacement')
+                run.count('cache:replacement:' + ('shorter' if len(new) < len(wallet) else 'equal' if len(new) == len(wallet) else 'longer'))
                 wallet = list(new)
                 stored = [ledger.headers._read(i) for i in range(len(ledger.headers))]
-                if stored != wallet:
-                    run.disagreement('C08.cache: header list after a header notification', dict(case, step=si), len(stored), len(wallet))
-                    return
+                if stored != wallet and store_diverged is None:
+                    store_diverged = si       # judged by the monitor on the following requests first
             elif st[0] == 'sync':
                 loop.run_until_complete(ledger.update_headers())
                 new = net.chain
@@ -1163,13 +1245,13 @@ def cache_case(run, world, model, case):
                         run.violation(dict(case, step=si, txid=txid),
                                       f'{"cached " if hit else ""}transaction returned VERIFIED at height {tx.height}, but its '
                                       f'proof does not lead to the Merkle root of the header the wallet now holds at that '
-                                      f'height ({len(wallet)} headers{"; the header file read back after the restart is not the chain validated before the shutdown" if store_diverged is not None else ""})', signature=sig)
+                                      f'height ({len(wallet)} headers{"; the header store is not the chain the wallet validated last (step %d)" % store_diverged if store_diverged is not None else ""})', signature=sig)
                         return
                     if folds(h) and not (tx.is_verified and tx.height == h):
                         run.violation(dict(case, step=si, txid=txid),
                                       f'genuine proof for height {h} (header present, {len(wallet)} headers) not accepted: '
                                       f'{"served from the cache " if hit else ""}verified={tx.is_verified} at height {tx.height}'
-                                      f'{"; the header file read back after the restart is not the chain validated before the shutdown" if store_diverged is not None else ""}',
+                                      f'{"; the header store is not the chain the wallet validated last (step %d)" % store_diverged if store_diverged is not None else ""}',
                                       signature=sig)
                         return
                     if hit:
@@ -1180,7 +1262,7 @@ def cache_case(run, world, model, case):
                     mexpect.append({'hit': hit, 'height': tx.height, 'position': tx.position, 'verified': tx.is_verified,
                                     'outcome': 'tx'})
         if store_diverged is not None:
-            run.disagreement('C08.cache: header file after close/reopen is not the chain held before the shutdown',
+            run.disagreement('C08.cache: header store (after a restart or a replacement) is not the chain the wallet validated last',
                              dict(case, step=store_diverged), 'differs', 'equal')
             return
         mod = model.call('cache_run', headers=[], ops=mops)
@@ -1202,7 +1284,7 @@ class CkHd(Headers):
     checkpoints = {}
 
 
-def chunk_scenario(seed):
+def chunk_scenario(seed, case_disk=False):
     """m checkpointed chunks, all missing at start; per chunk the real 1000 headers (what the checkpoint commits
     to) and a forged chunk; a script of attempts (which answer the server gives, which transaction/proof, height)"""
     rng = random.Random(f'chunk:{seed}')
@@ -1254,22 +1336,66 @@ def chunk_scenario(seed):
         script += [att(k, lie, 'forged'), att(k, lie, 'genuine')]                   # chunk present: getter not asked
     if m == 2 and rng.random() < 0.5:
         rng.shuffle(script)
-    return m, cps, variants, script
+    # half of the scenarios start from a header FILE written in an earlier run and damaged since: per chunk the
+    # file holds the genuine chunk, the genuine chunk with ONE header replaced (the forged block's header; never
+    # the first header of the chunk alone), a torn write (first part genuine, the rest still the zero placeholder)
+    # or nothing (zeros)
+    disk = None
+    if case_disk:
+        disk = {}
+        for k in range(m):
+            h, _, _ = spots[k]
+            kind = rng.choice(['edited', 'edited', 'torn', 'intact', 'blank'])
+            if kind == 'edited':
+                c = list(variants[2 * k])
+                c[h - 1000 * k] = variants[2 * k + 1][h - 1000 * k]
+                if rng.random() < 0.3:
+                    c[0] = variants[2 * k + 1][0]
+            elif kind == 'torn':
+                t = rng.randrange(1, 1000)
+                c = variants[2 * k][:t] + [bytes(112)] * (1000 - t)
+            elif kind == 'intact':
+                c = list(variants[2 * k])
+            else:
+                continue
+            variants.append(c)
+            disk[k] = (len(variants) - 1, kind)
+            if kind == 'edited':     # the lying server serves exactly what the file holds
+                script = [dict(a, server=len(variants) - 1) if a['chunk'] == k and a['server'] != 2 * k else a
+                          for a in script]
+    return m, cps, variants, script, disk
 
 
 def chunk_case(run, world, model, case):
     import base64
     import zlib
-    m, cps, variants, script = chunk_scenario(case['scenario_seed'])
+    import tempfile
+    import shutil
+    m, cps, variants, script, disk = chunk_scenario(case['scenario_seed'], bool(case.get('disk')))
     loop = world.loop
     run.case(case, nontrivial=True)
-    run.count('kind:chunk')
-    sig = {'kind': 'chunk', 'scenario_seed': case['scenario_seed']}
-    hd = CkHd(':memory:')
+    run.count('kind:chunk' + (':restart' if disk is not None else ''))
+    sig = {'kind': 'chunk', 'scenario_seed': case['scenario_seed'], 'disk': bool(case.get('disk'))}
+    tmp = None
+    if disk is None:
+        hd = CkHd(':memory:')
+    else:
+        tmp = tempfile.mkdtemp(prefix='c08_')
+        path = os.path.join(tmp, 'headers')
+        with open(path, 'wb') as f:                 # the header file as the previous run (and the damage) left it
+            for k in range(m):
+                f.write(b''.join(variants[disk[k][0]]) if k in disk else bytes(112000))
+        for k, (_, kind) in disk.items():
+            run.count('chunk:file:' + kind)
+        hd = CkHd(path)
     ledger = Ledger({'db': Database(':memory:'), 'headers': hd})
     hd.checkpoints = {1000 * k: binascii.hexlify(cp[::-1]).decode() for k, cp in enumerate(cps)}   # after Ledger.__init__
-    loop.run_until_complete(hd.open())
-    if len(hd) != 1000 * m or hd.known_missing_checkpointed_chunks != {1000 * k for k in range(m)}:
+    try:
+        loop.run_until_complete(hd.open())
+    finally:
+        if tmp:
+            shutil.rmtree(tmp, ignore_errors=True)
+    if disk is None and (len(hd) != 1000 * m or hd.known_missing_checkpointed_chunks != {1000 * k for k in range(m)}):
         run.disagreement('C08.chunk setup', case, [len(hd), sorted(hd.known_missing_checkpointed_chunks)], [1000 * m])
         return
     state = {'serve': 0, 'asked': 0}
@@ -1311,7 +1437,8 @@ def chunk_case(run, world, model, case):
         observed.append({'height': tx.height, 'position': tx.position, 'verified': tx.is_verified, 'outcome': outcome,
                          'asked': state['asked'] > before})
     present = sorted(k for k in range(m) if 1000 * k not in hd.known_missing_checkpointed_chunks)
-    mod = model.call('chunk_run', csize=1000, checkpoints=[c.hex() for c in cps],
+    extra = {'disk': [[k, v] for k, (v, _) in sorted(disk.items())]} if disk is not None else {}
+    mod = model.call('chunk_run', csize=1000, checkpoints=[c.hex() for c in cps], **extra,
                      chunks=[[x.hex() for x in v] for v in variants],
                      attempts=[{'server': a['server'], 'raw': a['raw'], 'height': a['height'], 'arg': model_resp(a['arg']),
                                 'net': {}} for a in script])
@@ -1430,6 +1557,37 @@ def history_case(run, world, model, case):
     plan = [p for i, p in enumerate(plan) if i == 0 or p[0] != plan[i - 1][0]]      # the history must change to be re-synced
     base_history = list(net.history.get(address, []))
     mops = []
+    if case.get('reorg'):
+        # KNOWN FINDING (Database.rewind_blockchain is an empty TODO): the row of a transaction verified in a block
+        # that is then replaced keeps (height, verified) -- reported with a fixed signature
+        hd = Hd(':memory:')
+        loop.run_until_complete(hd.open())
+        loop.run_until_complete(hd.connect(0, b''.join(hraws)))
+        hd.checkpoints = {}
+        ledger.headers = hd
+        net.replies[txid] = (T.hex(), plan[0][1])
+        net.history[address] = base_history + [(txid, t_h)]
+        status = _h.sha256(''.join(f'{t}:{x}:' for t, x in net.history[address]).encode()).hexdigest()
+        loop.run_until_complete(ledger.update_history(address, status))
+        row = loop.run_until_complete(db.get_transaction(txid=txid))
+        if row is None or not (row.is_verified and row.height == t_h):
+            run.violation(dict(case, step=0), f'genuine proof at height {t_h} synced, row is {row and (row.height, row.is_verified)}', signature=sig)
+            return
+        fork = rng.randrange(1, t_h + 1)
+        new = link_headers(hraws[:fork], [rng.randbytes(32) for _ in range(size - fork)], 9)
+        loop.run_until_complete(ledger.update_headers(
+            height=fork, headers=binascii.hexlify(b''.join(new[fork:])).decode(), subscription_update=True))
+        stored = [hd._read(i) for i in range(len(hd))]
+        row = loop.run_until_complete(db.get_transaction(txid=txid))
+        run.count('history:reorg')
+        if stored == new and row.is_verified and stored[row.height][36:68] != roots[t_h]:
+            run.violation(dict(case, step=1, fork=fork, txid=txid),
+                          f'database row still says (height {row.height}, verified) after a reorganisation from height {fork} '
+                          f'replaced the header at {row.height}: its proof no longer leads to the header the wallet holds',
+                          signature={'kind': 'history:row-verified-after-reorg'})
+        elif stored != new:
+            run.disagreement('C08.history: headers after the reorganisation', case, len(stored), len(new))
+        return
     for step, (hh, merkle) in enumerate(plan):
         net.replies[txid] = (T.hex(), merkle)
         history = base_history + [(txid, hh)]
@@ -1493,6 +1651,55 @@ def dispatch_case(run, world, model, case):
             do_case(run, world, model, case)
 
 
+def witness_cases(rng, thorough):
+    """deterministic family: blocks that contain a WITNESS-serialised transaction whose script lengths / input
+    and output counts sit on the compact-size boundaries; the genuine proof (leaf = hash of the legacy encoding)
+    must be accepted; a changed flag / witness byte does not change the id; a changed committed byte does"""
+    sizes = [0, 1, 75, 76, 252, 253, 254, 255, 256, 600] + ([65535, 65536] if thorough else [])
+    shapes = [('in-script', n) for n in sizes] + [('out-script', n) for n in sizes] + \
+             [('n-inputs', n) for n in (252, 253, 254)] + [('n-outputs', n) for n in (252, 253, 254)]
+    for what, n in shapes:
+        ins = [(rng.randbytes(32), rng.randrange(4), rng.randbytes(5), 0xffffffff)]
+        outs = [(rng.randrange(1, 10 ** 12), b'\x76\xa9\x14' + rng.randbytes(20) + b'\x88\xac')]
+        if what == 'in-script':
+            ins = [(ins[0][0], ins[0][1], rng.randbytes(n), 0xfffffffe)]
+        elif what == 'out-script':
+            outs = [(outs[0][0], rng.randbytes(n))]
+        elif what == 'n-inputs':
+            ins = [(rng.randbytes(32), i % 7, b'', 0xffffffff) for i in range(n)]
+        else:
+            outs = [(i + 1, bytes([0x51])) for i in range(n)]
+        fields = (rng.choice([1, 2]), ins, outs, rng.randrange(0, 500000))
+        legacy = ser_tx(fields)
+        wits = [[rng.randbytes(rng.choice([0, 1, 33, 72])) for _ in range(rng.randrange(0, 3))] for _ in ins]
+        if not any(wits):
+            wits[0] = [rng.randbytes(33)]
+        flag = rng.choice([1, 1, 1, 2, 0x7f, 0xff])
+        segwit = ser_tx(fields, flag, wits)
+        nblock = rng.choice([1, 2, 3, 4])
+        idx = rng.randrange(nblock)
+        others = make_block(nblock, rng.randrange(10 ** 9))
+        pres = [legacy if i == idx else others[i] for i in range(nblock)]
+        levels = ref_levels([H(x) for x in pres])
+        size = rng.randrange(3, 7)
+        at = rng.randrange(1, size)
+        roots = fresh_roots(rng, size, at, levels[-1][0])
+        arg = {'block_height': at, 'merkle': text_elems(ref_branch(levels, idx)), 'pos': idx}
+        base = {'n': nblock, 'idx': idx, 'roots': [r.hex() for r in roots], 'height': at, 'arg': arg, 'net': {},
+                'shape': [what, n, flag]}
+        yield dict(base, kind='witness:genuine', raw=segwit.hex(), expect='accept')
+        yield dict(base, kind='witness:legacy-encoding', raw=legacy.hex(), expect='accept')
+        # flag byte / a witness byte changed: same id (the header commits to txids only) -> still the same proof
+        if any(len(x) for items in wits for x in items):
+            j = len(segwit) - 5
+            yield dict(base, kind='witness:witness-byte-changed', raw=(segwit[:j] + bytes([segwit[j] ^ 0x55]) + segwit[j + 1:]).hex(),
+                       expect=None)
+        yield dict(base, kind='witness:flag-changed', raw=(segwit[:5] + bytes([flag ^ 0x80 or 1]) + segwit[6:]).hex(), expect=None)
+        # a committed byte changed (version, locktime): another id
+        yield dict(base, kind='witness:committed-byte-changed', raw=(bytes([segwit[0] ^ 3]) + segwit[1:]).hex(), expect='reject')
+        yield dict(base, kind='witness:committed-byte-changed', raw=(segwit[:-1] + bytes([segwit[-1] ^ 1])).hex(), expect='reject')
+
+
 BAD_ELEMS = ['', 'a', 'zz', '0g', 'abc', ' ' * 64, '0x' + '11' * 31, '11' * 31, '11' * 33, '1' * 63, 'AB' * 32,
              'aB' * 32, '\n' + '11' * 32, '11' * 32 + '\n', '+1' * 32, '-1' * 32, '1_' * 32, '\x00' * 64]
 
@@ -1544,10 +1751,10 @@ def malformed_cases(rng, count):
             expect = 'accept'
         elif kind == 'neg-pos':
             d['pos'] = idx - (1 << rng.randrange(len(branch), len(branch) + 5))
-            expect = 'accept-highbit'
+            expect = 'reject'
         elif kind == 'huge-pos':
             d['pos'] = idx + (rng.randrange(1, 2 ** 64) << len(branch))
-            expect = 'accept-highbit'
+            expect = 'reject'
         elif kind == 'reverify-bad':
             prior = {'height': at, 'position': idx, 'verified': True}
             if d['merkle']:
@@ -1924,7 +2131,9 @@ def main(run):
         'altered, key and proof genuine); header stores built by the real VALIDATING Headers.connect (easy max_target, '
         'proof of work, bits, links) from a valid base plus one message [valid*k, invalid(prev|bits|pow), ...] with k '
         'mostly in the first half, proofs offered at the prefix, the invalid header and behind it; restart: a validated header FILE gets one header\'s merkle root replaced by a forged block\'s root plus a '
-        'half-written tail, is re-opened (repair) and the forged proof offered; history scripts: the real Ledger.update_history for a transaction paying the wallet, the server reporting it '
+        'half-written tail, is re-opened (repair) and the forged proof offered; witness family (deterministic): blocks containing a witness-serialised transaction with script lengths 0,1,75,76,'
+        '252..256,600 (thorough: 65535, 65536) and 252/253/254 inputs or outputs, genuine proof, flag / witness / committed '
+        'byte changed; history scripts: the real Ledger.update_history for a transaction paying the wallet, the server reporting it '
         'first at its true height with the genuine proof and then at a height without header / another in-range height / '
         'in the mempool / with a wrong branch / back, the row read back through Database.get_transaction after every '
         'sync and compared with Model/C08_Db.v; cache scripts also restart the wallet on a real header FILE around an '
@@ -1968,12 +2177,15 @@ def main(run):
         for _ in range(vlib.scaled(run.tier, 60, 1500)):
             for case in restart_cases(rng, thorough):
                 restart_case(run, world, model, case)
-        for _ in range(vlib.scaled(run.tier, 60, 1500)):
-            history_case(run, world, model, {'kind': 'history', 'scenario_seed': rng.randrange(10 ** 9)})
-        for _ in range(vlib.scaled(run.tier, 30, 600)):
-            chunk_case(run, world, model, {'kind': 'chunk', 'scenario_seed': rng.randrange(10 ** 9)})
+        for i in range(vlib.scaled(run.tier, 60, 1500)):
+            history_case(run, world, model, dict({'kind': 'history', 'scenario_seed': rng.randrange(10 ** 9)},
+                                                 **({'reorg': True} if i % 6 == 5 else {})))
+        for i in range(vlib.scaled(run.tier, 36, 700)):
+            chunk_case(run, world, model, {'kind': 'chunk', 'scenario_seed': rng.randrange(10 ** 9), 'disk': i % 2 == 1})
         for _ in range(vlib.scaled(run.tier, 120, 3000)):
             cache_case(run, world, model, {'kind': 'cache', 'scenario_seed': rng.randrange(10 ** 9)})
+        for case in witness_cases(rng, thorough):
+            do_case(run, world, model, case)
         for case in malformed_cases(rng, vlib.scaled(run.tier, 1500, 30000)):
             do_case(run, world, model, case)
         static_fold_checks(run, model, rng, vlib.scaled(run.tier, 1500, 30000))
